@@ -11,7 +11,8 @@
    fsync_ignored_errnos = "descriptor cannot be synced").
    Environment assumption made explicit in [status_of]: an exception that leaves
    main or a thread, or a destructor, ends the process by abort() (SIGABRT). *)
-From PP Require Import Sys.ExitDefs Sys.ExitProofs Sys.ThreadedIODefs Sys.ThreadedIOProofs Sys.WrapperIODefs Sys.WrapperIOProofs.
+From PP Require Import Sys.ExitDefs Sys.ExitProofs Sys.ThreadedIODefs Sys.ThreadedIOProofs Sys.WrapperIODefs Sys.WrapperIOProofs
+  Sys.WrapperMainDefs Sys.WrapperMainProofs.
 Local Open Scope Z_scope.
 
 (* Any util-stream filter tool (any transducer [step]/[fin], any read size), any oracle:
@@ -142,42 +143,92 @@ Theorem C11_Wait_nonzero_unless_success :
 Proof. exact Wait_nonzero_unless_success_proof. Qed.
 Print Assumptions C11_Wait_nonzero_unless_success.
 
-(* child exits on its own after answering everything => wrapper status = child's code *)
+(* ------------------------------------------------------------------ *)
+(* The three child wrappers, from an executable model of their mains as coded (Sys/WrapperMainDefs.v):
+   feeder thread (FilePiece on stdin line by line, FileStream to the child's stdin, cache's periodic
+   flush, foldfilter's/b64filter's explicit flush, the destructors), collector thread (FilePiece on the
+   child's stdout: every read is a system call that can fail; premature end of file => exception;
+   FileStream on fd 1; b64filter's surplus test), an exception leaving either thread => terminate,
+   EPIPE => SIGPIPE, main returns what Wait(child) computed.  Quantified over EVERY record logic
+   (feed / need / emit: in particular the three wrappers'), every input, every byte string the child
+   wrote before its stdout ended ([child_out]), every way the child ended ([t]) and every pair of oracles.
+   [total]: child lines the collector needs for the input; [have]: lines the child delivered.
+   [killed st]: st = Signaled SIGABRT \/ st = Signaled SIGPIPE. *)
+Theorem C11_wrapper_main_status :
+  forall (D Sf Sc : Type) (feed : Sf -> list Z -> Sf * D * list (list Z)) (need : D -> nat)
+         (emit : Sc -> D -> list (list Z) -> Sc * list (list Z)) (wr : wrapper) (flush_rate : nat)
+         (sf0 : Sf) (sc0 : Sc) (fd_child fd_c : Z) (input child_out : list Z) (t : term)
+         (orc_f orc_c : list outcome) (st : status) (evf evc : list event),
+  wrapper_main_run feed need emit wr flush_rate sf0 sc0 fd_child fd_c input child_out t orc_f orc_c = (st, evf, evc) ->
+  let total := total_need need (descs feed sf0 (text_lines input [])) in
+  let have := length (text_lines child_out []) in
+  st <> StFuel /\
+  (any_failed evf = true \/ any_failed evc = true -> killed st) /\
+  ((have < total)%nat -> killed st) /\
+  (wr = B64filter -> have <> total -> killed st) /\
+  (any_failed evf = false -> any_failed evc = false -> (total <= have)%nat -> (wr = B64filter -> have = total) ->
+     st = Exited (Wait (wstatus t) mod 256)) /\
+  (st = Exited 0 -> any_failed evf = false /\ any_failed evc = false /\ (total <= have)%nat /\
+                    (wr = B64filter -> have = total) /\ Wait (wstatus t) mod 256 = 0).
+Proof. exact wrapper_main_spec_proof. Qed.
+Print Assumptions C11_wrapper_main_status.
+
+(* child exits with code c after answering everything, nothing failed => the wrapper's status is c *)
 Theorem C11_child_exit_propagates :
-  forall wr needs lines rest c,
-  collect needs lines = Some rest -> (wr = B64filter -> rest = 0%nat) -> 0 <= c < 256 ->
-  wrapper_status wr needs lines (TExit c) true = Exited c.
-Proof. exact child_exit_propagates_proof. Qed.
+  forall (D Sf Sc : Type) (feed : Sf -> list Z -> Sf * D * list (list Z)) (need : D -> nat)
+         (emit : Sc -> D -> list (list Z) -> Sc * list (list Z)) wr flush_rate sf0 sc0 fd_child fd_c input child_out
+         orc_f orc_c st evf evc c,
+  wrapper_main_run feed need emit wr flush_rate sf0 sc0 fd_child fd_c input child_out (TExit c) orc_f orc_c = (st, evf, evc) ->
+  0 <= c < 256 -> any_failed evf = false -> any_failed evc = false ->
+  (total_need need (descs feed sf0 (text_lines input [])) <= length (text_lines child_out []))%nat ->
+  (wr = B64filter -> length (text_lines child_out []) = total_need need (descs feed sf0 (text_lines input []))) ->
+  st = Exited c.
+Proof. exact wm_child_exit_propagates_proof. Qed.
 Print Assumptions C11_child_exit_propagates.
 
-(* child killed by a signal at ANY point (any number of answers, with or without core,
-   feeder failing or not) => non-zero *)
+(* child killed by a signal at ANY point (whatever it had answered, with or without core, whatever else
+   failed or not) => the wrapper's status is not 0 (and the model run ends: no fuel error) *)
 Theorem C11_child_signal_nonzero :
-  forall wr needs lines s core feeder_ok,
-  1 <= s <= 64 -> wrapper_status wr needs lines (TSignal s core) feeder_ok <> Exited 0.
-Proof. exact child_signal_nonzero_proof. Qed.
+  forall (D Sf Sc : Type) (feed : Sf -> list Z -> Sf * D * list (list Z)) (need : D -> nat)
+         (emit : Sc -> D -> list (list Z) -> Sc * list (list Z)) wr flush_rate sf0 sc0 fd_child fd_c input child_out
+         orc_f orc_c st evf evc s core,
+  wrapper_main_run feed need emit wr flush_rate sf0 sc0 fd_child fd_c input child_out (TSignal s core) orc_f orc_c = (st, evf, evc) ->
+  1 <= s <= 64 -> st <> Exited 0 /\ st <> StFuel.
+Proof. exact wm_child_signal_nonzero_proof. Qed.
 Print Assumptions C11_child_signal_nonzero.
 
 (* child exits non-zero at ANY point => non-zero *)
 Theorem C11_child_failure_nonzero :
-  forall wr needs lines c feeder_ok,
-  1 <= c <= 255 -> wrapper_status wr needs lines (TExit c) feeder_ok <> Exited 0.
-Proof. exact child_failure_nonzero_proof. Qed.
+  forall (D Sf Sc : Type) (feed : Sf -> list Z -> Sf * D * list (list Z)) (need : D -> nat)
+         (emit : Sc -> D -> list (list Z) -> Sc * list (list Z)) wr flush_rate sf0 sc0 fd_child fd_c input child_out
+         orc_f orc_c st evf evc c,
+  wrapper_main_run feed need emit wr flush_rate sf0 sc0 fd_child fd_c input child_out (TExit c) orc_f orc_c = (st, evf, evc) ->
+  1 <= c <= 255 -> st <> Exited 0 /\ st <> StFuel.
+Proof. exact wm_child_failure_nonzero_proof. Qed.
 Print Assumptions C11_child_failure_nonzero.
 
-(* premature EOF from the child (fewer lines than the records need), however it ended => abort *)
+(* premature end of the child's output (fewer lines than the records of the input need), however the
+   child ended and whatever the oracles say => killed: DERIVED from the collector's ReadLine reaching
+   end of file, not assumed *)
 Theorem C11_premature_eof_nonzero :
-  forall wr needs lines t feeder_ok,
-  (lines < fold_right Nat.add 0 needs)%nat ->
-  wrapper_status wr needs lines t feeder_ok = Signaled SIGABRT.
-Proof. exact premature_eof_lines_proof. Qed.
+  forall (D Sf Sc : Type) (feed : Sf -> list Z -> Sf * D * list (list Z)) (need : D -> nat)
+         (emit : Sc -> D -> list (list Z) -> Sc * list (list Z)) wr flush_rate sf0 sc0 fd_child fd_c input child_out
+         orc_f orc_c st evf evc t,
+  wrapper_main_run feed need emit wr flush_rate sf0 sc0 fd_child fd_c input child_out t orc_f orc_c = (st, evf, evc) ->
+  (length (text_lines child_out []) < total_need need (descs feed sf0 (text_lines input [])))%nat -> killed st.
+Proof. exact wm_premature_eof_nonzero_proof. Qed.
 Print Assumptions C11_premature_eof_nonzero.
 
-(* a failed write to the child's stdin => non-zero *)
-Theorem C11_feeder_error_nonzero :
-  forall wr needs lines t, wrapper_status wr needs lines t false <> Exited 0.
-Proof. exact feeder_error_nonzero_proof. Qed.
-Print Assumptions C11_feeder_error_nonzero.
+(* ANY failing read (wrapper's stdin, child's stdout pipe), write, fsync or close on a data descriptor in
+   EITHER thread => killed *)
+Theorem C11_wrapper_thread_io_error_nonzero :
+  forall (D Sf Sc : Type) (feed : Sf -> list Z -> Sf * D * list (list Z)) (need : D -> nat)
+         (emit : Sc -> D -> list (list Z) -> Sc * list (list Z)) wr flush_rate sf0 sc0 fd_child fd_c input child_out
+         orc_f orc_c st evf evc t,
+  wrapper_main_run feed need emit wr flush_rate sf0 sc0 fd_child fd_c input child_out t orc_f orc_c = (st, evf, evc) ->
+  any_failed evf = true \/ any_failed evc = true -> killed st.
+Proof. exact wm_io_error_nonzero_proof. Qed.
+Print Assumptions C11_wrapper_thread_io_error_nonzero.
 
 (* ---- non-vacuity ---- *)
 
@@ -217,10 +268,32 @@ Example C11_nonvacuous_iostream_unchecked_exits_0 :
   fst (iostream_run conf_mmhsum [] [[104; 105; 10]] [Ok 0 []; Err ENOSPC]) = Exited 1.
 Proof. vm_compute. split; reflexivity. Qed.
 
-(* statuses: SIGKILL after all answers => 137; exit 3 => 3; Wait's old value 256 would be status 0 *)
+(* a line-by-line wrapper (one child line per input line, echo), input "a\nb\n":
+   child answered both lines and was then killed by SIGKILL => 137; exited 3 => 3;
+   child answered one line and exited 0 => SIGABRT (premature end of file, derived);
+   everything answered, exit 0, but the 2nd read of the child's pipe fails with EIO => SIGABRT;
+   the child's stdin is closed early, write gives EPIPE => SIGPIPE;
+   b64filter with a surplus line => SIGABRT;  Wait's old value 256 would be status 0 *)
+Definition ex_feed (s : unit) (l : list Z) : unit * nat * list (list Z) := (s, 1%nat, [l; [10]]).
+Definition ex_emit (s : unit) (d : nat) (ls : list (list Z)) : unit * list (list Z) := (s, map (fun l => l ++ [10]) ls).
+Definition ex_run wr child_out t of oc :=
+  fst (fst (wrapper_main_run ex_feed (fun d => d) ex_emit wr 4096 tt tt 4 5 [97; 10; 98; 10] child_out t of oc)).
 Example C11_nonvacuous_wrapper :
-  wrapper_status Foldfilter [2; 1]%nat 3 (TSignal 9 false) true = Exited 137 /\
-  wrapper_status Cache [1; 1]%nat 2 (TExit 3) true = Exited 3 /\
-  wrapper_status B64filter [2; 1]%nat 2 (TExit 0) true = Signaled SIGABRT /\
+  ex_run Foldfilter [97; 10; 98; 10] (TSignal 9 false) [] [] = Exited 137 /\
+  ex_run Cache [97; 10; 98; 10] (TExit 3) [] [] = Exited 3 /\
+  ex_run Cache [97; 10; 98; 10] (TExit 0) [] [] = Exited 0 /\
+  ex_run Cache [97; 10] (TExit 0) [] [] = Signaled SIGABRT /\
+  ex_run Cache [97; 10; 98; 10] (TExit 0) [] [Ok 2 []; Err EIO] = Signaled SIGABRT /\
+  ex_run Cache [97; 10; 98; 10] (TExit 0) [Ok 4 []; Ok 0 []; Err EPIPE] [] = Signaled SIGPIPE /\
+  ex_run B64filter [97; 10; 98; 10; 99; 10] (TExit 0) [] [] = Signaled SIGABRT /\
+  ex_run B64filter [97; 10; 98; 10] (TExit 0) [] [] = Exited 0 /\
   256 mod 256 = 0.
+Proof. vm_compute. repeat split. Qed.
+
+(* the read loops and Launch behave as stated on small instances *)
+Example C11_nonvacuous_read_loops_launch :
+  fst (fst (ReadOrThrow 0 5 [Ok 2 [1; 2]; Err EIO])) = Exn /\
+  fst (fst (ReadOrEOF 0 5 [Err EINTR; Ok 2 [1; 2]; Ok 0 []])) = Val [1; 2] /\
+  fst (launch_status 1 5 [Err EAGAIN; Ok 4 []] (Exited 0)) = Signaled SIGABRT /\
+  fst (launch_status 1 5 [Err EAGAIN; Ok 0 []] (Exited 0)) = Exited 0.
 Proof. vm_compute. repeat split. Qed.
